@@ -65,6 +65,28 @@ impl Attributes {
         self.attributes.len()
     }
 
+    /// Returns a mutable reference to the first token of the first attribute,
+    /// creating it if missing.
+    pub(crate) fn mutate_first_token(&mut self) -> Option<&mut Token> {
+        self.attributes
+            .first_mut()
+            .map(|attribute| match attribute {
+                Attribute::Name(named) => {
+                    named.token.get_or_insert_with(|| Token::from_content("@"))
+                }
+                Attribute::Group(group) => {
+                    &mut group
+                        .tokens
+                        .get_or_insert_with(|| AttributeGroupTokens {
+                            opening_attribute_list: Token::from_content("@["),
+                            closing_bracket: Token::from_content("]"),
+                            separators: Vec::new(),
+                        })
+                        .opening_attribute_list
+                }
+            })
+    }
+
     /// Checks if an attribute with the given name exists in this list.
     pub fn has_attribute(&self, name: &str) -> bool {
         self.attributes.iter().any(|attr| match attr {
